@@ -406,6 +406,9 @@ func runC10(s *spec.Spec, logPath string) {
 			}
 		} else {
 			probesC["outside_completeness_range"]++
+			if lk.Why == "just_before_base" {
+				probesC["pillars_of_a_moment_just_before_base"]++
+			}
 		}
 	}
 	c.step = len(s.Lookups)
